@@ -14,7 +14,7 @@ func VerifH_C03_arp() {
 	r := &scan.Range{}
 	withNet := verifParam("TGT", 1) == 1
 	if withNet {
-		r.DstSubnet = &net.IPNet{IP: net.IPv4(192, 168, 0, 0).To4(), Mask: net.CIDRMask(24, 32)}
+		r.DstSubnet = c03Subnets[verifParam("SUBNET", 0)]()
 	}
 	text, snap := BPFFilter(r)
 	prog, err := c03Compile(false, snap, text)
@@ -43,7 +43,7 @@ func VerifH_C03_arp() {
 	shape := false
 	if isARP {
 		spa := b[28:32]
-		shape = !withNet || (spa[0] == 192 && spa[1] == 168 && spa[2] == 0)
+		shape = !withNet || c03InNet(spa, r.DstSubnet)
 		if passR {
 			rec := res.got[0].(*ScanResult)
 			verifAssert(rec.IP == net.IP(spa).String(), "record address is not the frame's sender address")
@@ -56,5 +56,14 @@ func VerifH_C03_arp() {
 		verifAssert(passR, "a reply-shaped frame is not reported by the processor")
 	} else {
 		verifAssert(!(passB && passR), "a frame that is not reply-shaped passes the filter and is reported")
+	}
+	if passR && isARP {
+		// a later reply must not change the record already emitted
+		rec := res.got[0].(*ScanResult)
+		ip0, mac0 := rec.IP, rec.MAC
+		f2 := append([]byte{}, c06ValidARP...)
+		f2[27], f2[31] = 0x77, 9
+		_ = sm.ProcessPacketData(f2[:len(f2):len(f2)], nil)
+		verifAssert(rec.IP == ip0 && rec.MAC == mac0, "an already emitted record changed when a later frame was processed (shared storage)")
 	}
 }
